@@ -4,4 +4,5 @@ import LnnVerif.Model.PropEngine
 import LnnVerif.Model.Fol
 import LnnVerif.Model.Store
 import LnnVerif.Model.Dual
+import LnnVerif.Model.Train
 import LnnVerif.Props.All
